@@ -95,6 +95,7 @@ def body_catalogue(case, note):
 def arg_strategy():
     child = st.one_of(
         st.builds(lambda s: {"k": "text", "s": s}, gen.hot_text(3)),
+        st.builds(lambda s: {"k": "text", "s": s}, st.sampled_from(["\nfoo", "\r\nbar", "\n", " lead", "", "<b>", "a\nb\n"])),
         st.sampled_from(
             [
                 {"k": "num", "v": 3},
@@ -107,8 +108,14 @@ def arg_strategy():
             ]
         ),
     )
-    pair = st.tuples(st.sampled_from(["id", "class_", "data_x", "x", "x_", "for_", "style", "href"]), st.one_of(gen.hot_text(2), st.sampled_from([True, False, None, 1, 2.5, {"html": "&h;"}])))
-    d = st.lists(pair.map(list), max_size=2)
+    common = st.sampled_from(
+        [["target", "_blank"], ["target", "_self"], ["rel", "noopener"], ["type", "text"], ["type", "submit"], ["name", "n"], ["value", ""], ["src", "s.png"], ["alt", ""], ["role", "button"],
+         ["method", "post"], ["action", "/"], ["width", 10], ["height", "5"], ["loading", "lazy"], ["download", True], ["hidden", True], ["tabindex", -1], ["lang", "en"], ["dir", "rtl"], ["charset", "utf-8"],
+         ["content", "c"], ["http_equiv", "x"], ["media", "all"], ["viewBox", "0 0 1 1"], ["fill", "none"], ["d", "M0 0"], ["xmlns", "http://www.w3.org/2000/svg"], ["open", True], ["checked", False], ["disabled", None]]
+    )
+    pair = st.one_of(st.tuples(st.sampled_from(["id", "class_", "data_x", "x", "x_", "for_", "style", "href"]), st.one_of(gen.hot_text(2), st.sampled_from([True, False, None, 1, 2.5, {"html": "&h;"}]))), common.map(tuple))
+    dict_only = st.sampled_from([["xlink:href", "#icon"], ["xml:lang", "en"], ["aria-label", "l"], ["data-x", "1"], ["@click", "f()"], ["class", "k"], ["for", "i"], ["href", "#a"]]).map(tuple)
+    d = st.lists(st.one_of(pair, dict_only).map(list), max_size=3)
     return st.fixed_dictionaries(
         {
             "args": st.lists(st.one_of(st.tuples(st.just("c"), child).map(list), st.tuples(st.just("d"), d).map(list)), max_size=4),
@@ -146,6 +153,8 @@ def body_args(case, note):
         if S.snap(got) != S.snap(want):
             check(False, f"{label}.{name}(*args, **kw) differs from Tag({name!r}, *args, _add_ws={ws}, **kw)", S.snap(want), S.snap(got))
         check(got.get_html_string() == want.get_html_string(), f"{label}.{name}: rendering differs from the Tag constructor's")
+        check(got.add_ws is ws, f"{label}.{name}: whitespace flag is {got.add_ws}, expected {ws} ({'default' if case['ws'] is None else 'explicit'})")
+        check(got.name == name, f"{label}.{name}: element name is {got.name!r}")
         n += 1
     has_child = any(k == "c" for k, _ in case["args"])
     has_attr = bool(case["kw"]) or any(k == "d" and p for k, p in case["args"])
